@@ -584,7 +584,11 @@ class ConcurrentVector {
     ++e;
     auto it = begin();
     it += (pos - it);
-    return std::move(pos + 1, const_iterator(e), it);
+    // Shift the tail down, destroy the moved-from element left behind the new end, and return the
+    // position following the removed element (which is the erased position itself).
+    auto newEnd = std::move(pos + 1, const_iterator(e), it);
+    newEnd->~T();
+    return it;
   }
 
   /**
@@ -604,17 +608,17 @@ class ConcurrentVector {
     }
     it += startIdx;
 
+    auto oldEnd = end();
     auto e_it = std::move(last, cend(), it);
 
-    if (e_it < last) {
-      // remove any values that were not already moved into
-      do {
-        --last;
-        last->~T();
-      } while (e_it != last);
+    // Everything from the new end to the old end is either an element that was not moved into or a
+    // moved-from element: destroy all of them (len elements).
+    for (auto d = e_it; d != oldEnd; ++d) {
+      d->~T();
     }
     size_.fetch_sub(len, std::memory_order_relaxed);
-    return e_it;
+    // The position following the last removed element is where the tail now starts.
+    return it;
   }
 
   /**
